@@ -308,9 +308,69 @@ def literal_scenario(rng):
     return ops
 
 
+# every field-discovery route of serdes as SOURCE objects, each class read at least twice per history with different
+# instances (state captured in a closure that get_items_iter memoises per class, or cached per class anywhere else)
+SRC_CLASSES = ["SrcDC", "SrcAnn", "SrcSlots", "SrcSlotsPriv", "SrcVars", "SrcSig", "SrcSlotsDict", "SrcNT", "SrcMap", "XY", "P"]
+SRC_TARGETS = [C("XY"), ["D", INT], ["L", INT], BD, BL, ["T", [INT, INT]], C("TD"), ["D", STR]]
+
+
+def src_value(rng, kind):
+    a, b = rng.choice([1, 2, 5]), rng.choice([0, 3, 7])
+    if kind in SRC_CLASSES:
+        d = {"a": a, "b": b} if kind == "P" else {"x": a, "y": b}
+        return ["obj", kind, sp(d)]
+    if kind == "dict":
+        return sp({"x": a, "y": b})
+    if kind == "odict":
+        return ["odict", sp([["x", a], ["y", b]])]
+    if kind == "pairs-list":
+        return ["l", [["t", [["s", "x"], ["i", a]]], ["t", [["s", "y"], ["i", b]]]]]
+    if kind == "pairs-tuple":
+        return ["t", [["l", [["s", "x"], ["i", a]]], ["l", [["s", "y"], ["i", b]]]]]
+    if kind == "pairs-iter":
+        return ["iter", ["l", [["t", [["s", "x"], ["i", a]]], ["t", [["s", "y"], ["i", b]]]]]]
+    if kind == "iter":
+        return ["iter", sp([a, b, 4])]
+    if kind == "deque":
+        return ["deque", sp([a, b])]
+    if kind == "fset":
+        return ["fset", sp([a, b + 20])]      # no hash-slot collision: iteration order independent of insertion order
+    if kind == "set":
+        return ["set", [["i", a], ["i", b + 20]]]
+    raise ValueError(kind)
+
+
+SRC_KINDS = SRC_CLASSES + ["dict", "odict", "pairs-list", "pairs-tuple", "pairs-iter", "iter", "deque", "fset", "set"]
+
+
+def source_scenario(rng):
+    kinds = rng.sample(SRC_KINDS, rng.randint(1, 3))
+    ops = []
+    for rep in range(rng.randint(2, 4)):
+        for kind in kinds:
+            x = src_value(rng, kind)
+            opk = rng.choices(["marshal", "unmarshal", "iteritems", "itervalues", "encode"], [30, 35, 15, 12, 8])[0]
+            if opk in ("marshal", "encode"):
+                t = C(kind) if kind in SRC_CLASSES and rng.random() < 0.7 else rng.choice([BD, BL, ["D", INT], ["L", INT]])
+                ops.append({"op": opk, "t": t, "x": {"new": x}})
+            elif opk == "unmarshal":
+                ops.append({"op": opk, "t": rng.choice(SRC_TARGETS), "x": {"new": x}})
+            else:
+                ops.append({"op": opk, "x": {"new": x}})
+        r = rng.random()
+        if r < 0.15:
+            ops.append({"op": rng.choice(["build_u", "build_m"]), "t": rng.choice(SRC_TARGETS)})
+        elif r < 0.2:
+            ops.append({"op": "clear"})
+    return ops
+
+
 def gen_history_x(rng, maxlen):
-    if rng.random() < 0.3:
+    r0 = rng.random()
+    if r0 < 0.25:
         return literal_scenario(rng)
+    if r0 < 0.6:
+        return source_scenario(rng)
     n = rng.randint(3, maxlen)
     fam = rng.sample(XTYPES, rng.randint(2, 4)) + rng.sample(TYPES, 2)
     ops, nres, ninp = [], [], 0
@@ -640,7 +700,7 @@ def cold_request(op, snap):
     return {"kind": "cold", "op": o}
 
 
-VALUE_OPS = ("unmarshal", "marshal", "encode", "decode", "cencode", "cdecode")
+VALUE_OPS = ("unmarshal", "marshal", "encode", "decode", "cencode", "cdecode", "iteritems", "itervalues")
 
 
 def oracle(pool, hists, runs, stats):
